@@ -95,6 +95,10 @@ func goVal(v bvalJ) any {
 			return math.MaxInt64
 		case "maxfloat":
 			return math.MaxFloat64
+		case "minint":
+			return math.MinInt64 + 1 // (the literal of MinInt64 itself cannot be written: its magnitude overflows)
+		case "tinyfloat":
+			return 5e-324
 		}
 		panic("unknown atom " + v.Atom)
 	}
